@@ -1,4 +1,5 @@
 import TexcraftModel.Lemmas.C03
+import TexcraftModel.Lemmas.C03Sched
 
 /-! # C03 — lexing follows TeX's scanner; every token traces to its source position
 
@@ -127,5 +128,43 @@ example : lexAll plain true "\\a^^5a b\n\n x".toList =
     [.token (.cs "aZ".toList) 0, .token (.chr 'b' .letter) 7, .token (.chr ' ' .space) 8,
      .endOfLine, .token (.cs parName) 9, .endOfLine, .token (.chr 'x' .letter) 11,
      .token (.chr ' ' .space) 12, .endOfInput] := by decide +kernel
+
+/-! ## Configuration that changes between calls (just-in-time lexing)
+
+`sched : List (Res Pos) → Cfg` gives the configuration of the next call of `Lexer::next` as a
+function of everything delivered so far (commands are executed between calls). The
+specification `Spec.specSched` samples exactly where TeX does: `cat_code` of a character in the
+call of `get_next` that looks at it (a character that only ends a control word is looked at in
+that call and categorised again by the call that consumes it), `end_line_char` in the call that
+brings the line in. -/
+
+/-- **Lexing follows TeX's scanner under a changing configuration** (full strength): for every
+schedule, the lexer called with `sched (history)` at each call delivers, with traces, exactly
+what the TeX scanner delivers when the configuration in force during each `get_next` is
+`sched (history)`. -/
+theorem lex_eq_spec_sched (sched : List (Res Pos) → Cfg) (rep : Bool) (src : List Char) :
+    lexTracedSched sched rep src = Spec.specSched sched rep src :=
+  lexTracedSched_eq sched rep src
+
+/-- No panic, no exhausted budget, `EndOfInput` reached — whatever the schedule. -/
+theorem lex_total_sched (sched : List (Res Pos) → Cfg) (rep : Bool) (src : List Char) :
+    Res.panic ∉ lexTracedSched sched rep src ∧ Res.fuel ∉ lexTracedSched sched rep src ∧
+      (lexTracedSched sched rep src).getLast? = some .endOfInput := by
+  have h := lexTracedSched_ok sched rep src
+  exact ⟨fun hm => (h.1 _ hm).1 rfl, fun hm => (h.1 _ hm).2 rfl, h.2⟩
+
+/-- The two specifications agree when the configuration never changes. -/
+theorem spec_sched_const (cfg : Cfg) (rep : Bool) (src : List Char) :
+    Spec.specSched (fun _ => cfg) rep src = Spec.specAll cfg rep src :=
+  specSched_const cfg rep src
+
+/-- Just in time: `\m@` where delivering `\m` makes `@` a letter (`\makeatletter@`). The `@` that
+ended the name `m` was looked at as an other character, and is a letter when it is consumed. -/
+example :
+    let atLetter : Cfg := { cat := fun c => if c = '@' then .letter else plainCat c, endline := none }
+    let sched : List (Res Pos) → Cfg := fun h => if h.length ≥ 1 then atLetter else { plain with endline := none }
+    Spec.specSched sched false "\\m@".toList =
+      [.token (.cs ['m']) ⟨1, 0, "\\m@".toList⟩, .token (.chr '@' .letter) ⟨1, 2, "\\m@".toList⟩,
+       .endOfInput] := by decide +kernel
 
 end C03
